@@ -91,7 +91,7 @@ Lemma c12_ssh_bound_from_closing : forall ls0 s ls s',
 Proof.
   intros ls0 s ls s' R C H.
   pose proof (ssh_sel_bound_from ls s s' (run_inv _ _ _ R) C (ssh_tr _ _ R) H) as B.
-  assert (sel_credit (worker s) <= 1) by (destruct (worker s) as [| | | | | | | | | | |? k|]; simpl; try lia; destruct k; simpl; lia).
+  assert (sel_credit (worker s) <= 1) by (destruct (worker s) as [| | | | | | | | | | | |? k|]; simpl; try lia; destruct k; simpl; lia).
   lia.
 Qed.
 
@@ -177,12 +177,12 @@ Proof.
     split; [lia|]. split; [reflexivity|]. split; [exact I|reflexivity]. }
   induction n as [|n IH]; intros s I C O T M.
   - apply Done; [exact I|].
-    unfold smeasure in M. destruct (worker s) as [| | | | | | | | | |c|r k|]; simpl in *; try lia; try reflexivity.
+    unfold smeasure in M. destruct (worker s) as [| | | | | | | | | | |c|r k|]; simpl in *; try lia; try reflexivity.
     + destruct c; simpl in M; lia.
     + destruct k; simpl in M; lia.
   - destruct (not_alive (worker s)) eqn:A.
     + apply Done; assumption.
-    + destruct (c12_worker_progress s A) as (l & W & E).
+    + destruct (c12_worker_progress_closed s A O) as (l & W & E).
       destruct (step s l) as [s1|] eqn:E1; [|congruence].
       destruct (closed_stable _ _ _ I E1 C O) as [C1 O1].
       assert (T1 : is_ssh (tr s1) = true) by (rewrite (tr_step _ _ _ E1); exact T).
